@@ -111,6 +111,7 @@ EXT = {'P?': sym_parse, 'B?': sym_bind, 'D?': sym_describe, 'C?': sym_close, 'E'
        'Pset': lambda: conc_msg('Pset', P('', 'SET statement_timeout TO 5')),
        'Pbig': lambda: conc_msg('Pbig', P('', 'SELECT bigrows')), 'Phuge': lambda: conc_msg('Phuge', P('', 'SELECT hugerow')),
        'P': lambda: conc_msg('P', P('', 'SELECT 1')), 'P2': lambda: conc_msg('P2', P('', 'SELECT 2')),
+       'Ps3': lambda: conc_msg('Ps3', P('s3', 'SELECT 4')), 'Bs3': lambda: conc_msg('Bs3', B('', 's3')),
        'Ps1b': lambda: conc_msg('Ps1b', P('s1', 'SELECT 3')), 'Ps2': lambda: conc_msg('Ps2', P('s2', 'SELECT 2')), 'Cs2': lambda: conc_msg('Cs2', C('S', 's2')),
        'Pst1': lambda: conc_msg('Pst1', P('s1', 'SELECT * FROM t1')), 'Pst2': lambda: conc_msg('Pst2', P('s2', 'SELECT * FROM t2')), 'Bs2': lambda: conc_msg('Bs2', B('', 's2')),
        'Pt1': lambda: conc_msg('Pt1', P('', 'SELECT * FROM t1')), 'Pt2': lambda: conc_msg('Pt2', P('', 'SELECT * FROM t2')), 'Ps': lambda: conc_msg('Ps', P('s1', 'SELECT 1')), 'Bs': lambda: conc_msg('Bs', B('', 's1')),
@@ -715,14 +716,15 @@ def custom_reference(data, script, dec, shard_roles, regex=False):
             t, d, c, z = take(), take(), take(), take()
             want = None
             if kind == 'ShowShard':
-                want = b'any' if sh in (None, 'any') else str(sh).encode()
+                want = b'unset' if sh in (None, 'any') else str(sh).encode()
             if not (is_code(t, 'T') and is_code(d, 'D') and is_code(c, 'C') and eq(z, msg('Z', b'I'))):
                 V.append(('C13', 'H/command-reply', 'SHOW is not answered with RowDescription, DataRow, CommandComplete, ReadyForQuery (got %s)' %
                           [HE.show(x[:12]) if x else None for x in (t, d, c, z)]))
-            elif want is not None and sh != 'any' and sh is not None:
+            elif want is not None:
                 val = d[11:]
                 if not HE.same_bytes(dec, val, [BV(8, b) for b in want]):
-                    V.append(('C13', 'H/show-value', 'SHOW SHARD reports %s after the preceding commands selected shard %r' % (HE.show(val), sh)))
+                    V.append(('C13', 'H/show-value', 'SHOW SHARD reports %s after the preceding commands established %s (a refused SET establishes nothing)' %
+                              (HE.show(val), 'no shard' if sh in (None, 'any') else 'shard %r' % (sh,))))
     # (c) routing of the statements that follow
     by_msg = {}
     stmts = [(k, m, sh, ro) for k, kind, m, sh, ro in cmds if kind == 'stmt']
